@@ -91,6 +91,33 @@ class U:
             self.functions.append(ex.info)
         return f
 
+    def siblings(self, relpath, fns, globs=None, model=False, rewrite_comps=False):
+        """module-level functions of `relpath` that the extracted functions `fns` name but were not handed: extracted from the real text as well
+        and put into their globals (a helper split off by a refactoring is then part of the verified text instead of a NameError = undecided)"""
+        import ast as _ast
+        from .extract import read_source
+        src, _ = read_source(relpath)
+        tops = {n.name for n in _ast.parse(src).body if isinstance(n, _ast.FunctionDef)}
+        raws = [getattr(f, "raw", f) for f in fns]
+        have = set()
+        for fr in raws:
+            have |= set(fr.__globals__)
+        todo = [n for n in sorted(tops) if n not in have and any(n in fr.__code__.co_names for fr in raws)]
+        seen = set()
+        while todo:
+            n = todo.pop()
+            if n in seen:
+                continue
+            seen.add(n)
+            g = dict(globs or {})
+            f = self.fn(relpath, n, globs=g, model=model, rewrite_comps=rewrite_comps)
+            fr = getattr(f, "raw", f)
+            raws.append(fr)
+            for r in raws:
+                r.__globals__.setdefault(n, f)
+            todo += [m for m in tops if m not in seen and m not in fr.__globals__ and m in fr.__code__.co_names]
+        return sorted(seen)
+
     def klass(self, relpath, clsname, globs=None, model=False, only=None, skip=(), bases=(), extra=None, rewrite_comps=True):
         """a python class assembled from the EXTRACTED text of every method of `clsname` (real source, read now); the
         decorators property / cached_property / staticmethod / classmethod are re-applied with their standard meaning,
